@@ -30,6 +30,9 @@ enum Row {
     /// THIS label sent, re-use switched off, another label (or broadcast) sent, re-use switched on again (plain or
     /// with a limit): what was sent while re-use was off must not leave a stale reference behind
     AfterOffOtherOn { bcast: bool, max: u8 },
+    /// like AfterSame, then the receiver sees rejected continuation packets (intermediate and end fragments of an
+    /// unknown fragment id, as left over from a PDU whose first fragment was lost) before the packet under test
+    AfterSameThenStrays,
 }
 
 struct Case<'a> {
@@ -54,11 +57,22 @@ fn run_case(rep: &Report, acc: &mut Acc, c: &Case) {
                 steps.push("disable_re_use_label".into());
             }
         }
+        Row::AfterSameThenStrays => {
+            let mut scratch = [0u8; 32];
+            let o = do_encap(&mut enc, &[0x42], 0, 0x0800, c.l, &mut scratch);
+            let n = o.len().unwrap_or(0);
+            if let DecapOut::Completed { buf, .. } = do_decap(&mut rx, &scratch[..(n).min(scratch.len())]) {
+                let _ = rx.provision_storage(buf.into_boxed_slice());
+            }
+            let s1 = do_decap(&mut rx, &crate::refm::Desc::inter(77, &[0xD1, 0xD2]).print());
+            let s2 = do_decap(&mut rx, &crate::refm::Desc::end(78, &[0xD3], 0x0102_0304).print());
+            steps.push(format!("encap(1-byte pdu, label {}) -> {:?}; decap; stray intermediate (id 77) -> {}; stray end (id 78) -> {}", c.l.short(), o, s1.class(), s2.class()));
+        }
         Row::AfterSame | Row::AfterSameOff => {
             let mut scratch = [0u8; 32];
             let o = do_encap(&mut enc, &[0x42], 0, 0x0800, c.l, &mut scratch);
             let n = o.len().unwrap_or(0);
-            let d = do_decap(&mut rx, &scratch[..n]);
+            let d = do_decap(&mut rx, &scratch[..(n).min(scratch.len())]);
             if let DecapOut::Completed { buf, .. } = d {
                 let _ = rx.provision_storage(buf.into_boxed_slice());
             }
@@ -74,7 +88,7 @@ fn run_case(rep: &Report, acc: &mut Acc, c: &Case) {
                 let mut scratch = [0u8; 32];
                 let o = do_encap(&mut enc, &[0x42 + k], 0, 0x0800, l, &mut scratch);
                 let n = o.len().unwrap_or(0);
-                if let DecapOut::Completed { buf, .. } = do_decap(&mut rx, &scratch[..n]) {
+                if let DecapOut::Completed { buf, .. } = do_decap(&mut rx, &scratch[..(n).min(scratch.len())]) {
                     let _ = rx.provision_storage(buf.into_boxed_slice());
                 }
                 steps.push(format!("encap(1-byte pdu, label {}) -> {:?}; decap", l.short(), o));
@@ -98,7 +112,7 @@ fn run_case(rep: &Report, acc: &mut Acc, c: &Case) {
                 let mut scratch = [0u8; 32];
                 let o = do_encap(&mut enc, &[0x42 + k], 0, 0x0800, c.l, &mut scratch);
                 let n = o.len().unwrap_or(0);
-                if let DecapOut::Completed { buf, .. } = do_decap(&mut rx, &scratch[..n]) {
+                if let DecapOut::Completed { buf, .. } = do_decap(&mut rx, &scratch[..(n).min(scratch.len())]) {
                     let _ = rx.provision_storage(buf.into_boxed_slice());
                 }
                 steps.push(format!("encap(1-byte pdu, label {}) -> {:?}; decap", c.l.short(), o));
@@ -111,14 +125,14 @@ fn run_case(rep: &Report, acc: &mut Acc, c: &Case) {
             let o1 = do_encap(&mut enc, &big, 9, 0x0800, other, &mut b1);
             let mut fed = vec![];
             if let EncOut::Fragmented(n1, ctx) = o1 {
-                fed.push(b1[..n1].to_vec());
+                fed.push(b1[..(n1).min(b1.len())].to_vec());
                 let mut b2 = [0u8; 32];
                 if let Some(n2) = do_encap(&mut enc, &[0x42], 0, 0x0800, c.l, &mut b2).len() {
-                    fed.push(b2[..n2].to_vec());
+                    fed.push(b2[..(n2).min(b2.len())].to_vec());
                 }
                 let mut b3 = [0u8; 32];
                 if let EncOut::Completed(n3) = do_encap_frag(&enc, &big, ctx, &mut b3) {
-                    fed.push(b3[..n3].to_vec());
+                    fed.push(b3[..(n3).min(b3.len())].to_vec());
                 }
             }
             // the receiver of this row needs room for the 12-byte PDU as well
@@ -144,7 +158,7 @@ fn run_case(rep: &Report, acc: &mut Acc, c: &Case) {
                 held.push(b);
             }
             let n1 = do_encap(&mut enc, &[0x43], 0, 0x0800, c.l, &mut scratch).len().unwrap_or(0);
-            let r = do_decap(&mut rx, &scratch[..n1]);
+            let r = do_decap(&mut rx, &scratch[..(n1).min(scratch.len())]);
             for b in held {
                 let _ = rx.provision_storage(b);
             }
@@ -158,7 +172,7 @@ fn run_case(rep: &Report, acc: &mut Acc, c: &Case) {
             let mut scratch = [0u8; 32];
             let o = do_encap(&mut enc, &[0x42], 0, 0x0800, other, &mut scratch);
             let n = o.len().unwrap_or(0);
-            let d = do_decap(&mut rx, &scratch[..n]);
+            let d = do_decap(&mut rx, &scratch[..(n).min(scratch.len())]);
             if let DecapOut::Completed { buf, .. } = d {
                 let _ = rx.provision_storage(buf.into_boxed_slice());
             }
@@ -176,7 +190,7 @@ fn run_case(rep: &Report, acc: &mut Acc, c: &Case) {
     let lw_full = c.l.wire_len();
     let fits_full = 2 + lw_full + c.p <= GSE_LEN_MAX && c.b >= 4 + lw_full + c.p;
     let fits_empty = 2 + c.p <= GSE_LEN_MAX && c.b >= 4 + c.p;
-    let may_sub = (matches!(c.row, Row::AfterSameWithMax { .. }) || c.row == Row::AfterSame || c.row == Row::AfterInterleavedTrain || c.row == Row::AfterRejectedForStorage) && c.l.is_addr();
+    let may_sub = (matches!(c.row, Row::AfterSameWithMax { .. }) || c.row == Row::AfterSame || c.row == Row::AfterSameThenStrays || c.row == Row::AfterInterleavedTrain || c.row == Row::AfterRejectedForStorage) && c.l.is_addr();
     let rank = (c.p * 100_000 + c.b) as u64;
     let wit = || {
         json!({"prefix": steps, "call":"encap","pdu_len":c.p,"content":c.content_desc,"frag_id":0x33,"pt":c.pt,"label":c.l.short(),"buffer_len":c.b,"row":format!("{:?}",c.row),"storage":c.storage,"result":format!("{:?}",out)})
@@ -195,7 +209,7 @@ fn run_case(rep: &Report, acc: &mut Acc, c: &Case) {
                 return;
             }
             // round trip: exactly the reported bytes
-            let d = do_decap(&mut rx, &buf[..n]);
+            let d = do_decap(&mut rx, &buf[..(n).min(buf.len())]);
             acc.transitions += 1;
             acc.calls += 1;
             acc.compared += 1;
@@ -260,7 +274,7 @@ fn run_case(rep: &Report, acc: &mut Acc, c: &Case) {
 
 pub fn run(tier: Tier) -> i32 {
     let rep = Report::new("C01", tier);
-    rep.set_rule("lattice: label kind x row (re-use on/off, after the same label with re-use on/off, after another label followed by failed encap_ext/encap calls with this label, after a complete packet with this label interleaved inside another PDU's fragment train, after 1 + k packets with this label under a limit of m consecutive re-use labels for (m,k) in {(1,1),(2,1),(2,2),(1,2)}, after this label, re-use off, another label or broadcast, re-use on again) x PDU length (every length 0..=4100) x buffer length relative to the exact packet size and beyond 4097 x protocol type x storage size >= PDU x content pattern, all contents for lengths 0..=2 (0..=1 in quick); each cell = real encap + real decap of exactly the reported bytes; distinct = (status, label kind, row, regime)");
+    rep.set_rule("lattice: label kind x row (re-use on/off, after the same label with re-use on/off, after another label followed by failed encap_ext/encap calls with this label, after a complete packet with this label interleaved inside another PDU's fragment train, after 1 + k packets with this label under a limit of m consecutive re-use labels for (m,k) in {(1,1),(2,1),(2,2),(1,2)}, after this label, re-use off, another label or broadcast, re-use on again, after this label followed by rejected continuation packets of unknown ids on the receiver side) x PDU length (every length 0..=4100) x buffer length relative to the exact packet size and beyond 4097 x protocol type x storage size >= PDU x content pattern, all contents for lengths 0..=2 (0..=1 in quick); each cell = real encap + real decap of exactly the reported bytes; distinct = (status, label kind, row, regime)");
     rep.assume("payload contents beyond 2 bytes are represented by four patterns (position tag, zeros, ones, second tag)");
     let labels = [L6A, L3A, Lbl::Bcast, L6B, L3B, L3Z];
     let ps: Vec<usize> = (0..=4100).collect();
@@ -272,7 +286,7 @@ pub fn run(tier: Tier) -> i32 {
             return;
         }
         let mut acc = Acc::default();
-        let rows: Vec<Row> = if l.is_addr() { vec![Row::Plain(true), Row::Plain(false), Row::AfterSame, Row::AfterSameOff, Row::AfterOtherThenFailed, Row::AfterInterleavedTrain, Row::AfterRejectedForStorage, Row::AfterSameWithMax { max: 1, sent: 1 }, Row::AfterSameWithMax { max: 2, sent: 1 }, Row::AfterSameWithMax { max: 2, sent: 2 }, Row::AfterSameWithMax { max: 1, sent: 2 }, Row::AfterOffOtherOn { bcast: false, max: 0 }, Row::AfterOffOtherOn { bcast: true, max: 0 }, Row::AfterOffOtherOn { bcast: false, max: 4 }] } else { vec![Row::Plain(true), Row::Plain(false)] };
+        let rows: Vec<Row> = if l.is_addr() { vec![Row::Plain(true), Row::Plain(false), Row::AfterSame, Row::AfterSameOff, Row::AfterOtherThenFailed, Row::AfterInterleavedTrain, Row::AfterRejectedForStorage, Row::AfterSameWithMax { max: 1, sent: 1 }, Row::AfterSameWithMax { max: 2, sent: 1 }, Row::AfterSameWithMax { max: 2, sent: 2 }, Row::AfterSameWithMax { max: 1, sent: 2 }, Row::AfterOffOtherOn { bcast: false, max: 0 }, Row::AfterOffOtherOn { bcast: true, max: 0 }, Row::AfterOffOtherOn { bcast: false, max: 4 }, Row::AfterSameThenStrays] } else { vec![Row::Plain(true), Row::Plain(false)] };
         for (ri, &row) in rows.iter().enumerate() {
             for lw in [l.wire_len(), 0] {
                 let size = 4 + lw + p;
